@@ -35,6 +35,9 @@ def obligations(tier):
             n = w + 1 + extra
             obs.append(Ob(f"{name}({','.join(f'{k}={v}' for k, v in kw.items())})/n={n}", dict(spec=["ind", name, kw], n=n), DEF,
                           weight=n * (5 if name == "Supertrend" else 1), budget_s=900 if tier == "quick" else 7200, max_paths=100000))
+    for name, kw, extra, n in (("BBANDS", dict(period=2), dict(fullname_override="my.BB"), 6), ("ATR", dict(period=2), dict(name_suffix="a.b"), 6), ("KC", dict(period=2), dict(name_suffix="v1.5"), 6),
+                               ("STDEV", dict(period=2), dict(name_suffix="1.0"), 6), ("donchian", dict(period=2), dict(fullname_override="dc.2"), 5), ("Supertrend", dict(period=2), dict(name_suffix="s.t"), 5)):
+        obs.append(Ob(f"{name}{kw}{extra}/n={n}", dict(spec=["ind", name, kw], n=n, extra=extra), DEF, weight=n * 3, budget_s=300, max_paths=100000))
     for cv in (True, False):
         n = 4 if tier == "quick" else 6
         obs.append(Ob(f"Counter(count_value={cv})/n={n}", dict(n=n, count_value=cv), DEF, fn="run_counter", weight=n, budget_s=600))
